@@ -167,6 +167,89 @@ def literal_cases(tier, rng, cfg):
     return out
 
 
+def big_item(rng, kind, clen, exp):
+    """One big-number literal whose digit text (what the accessor must return: no sign, no suffix, no underscores) has
+    exactly `clen` bytes.  kind 'N' = N-suffixed integer, 'I' = integer too large for int64 (clen >= 20), 'M' = M-suffixed
+    decimal (digits, optionally a point and / or an exponent).  With `exp` underscores are put between digits.
+    Returns (literal text, expected dump without ranges)."""
+    d = lambda n: "".join(rng.choice("0123456789") for _ in range(n))
+    nz = lambda: rng.choice("123456789")
+    if kind in ("N", "I") or clen < 3:
+        text = nz() + d(clen - 1)
+    else:
+        shape = rng.choice(["digits", "point", "point", "exp", "point-exp"])
+        if shape == "point-exp" and clen < 6:
+            shape = "point"
+        if shape == "digits":
+            text = nz() + d(clen - 1)
+        elif shape == "point":
+            p = rng.randint(1, clen - 2)
+            text = nz() + d(p - 1) + "." + d(clen - 1 - p)
+        elif shape == "exp":
+            es = rng.choice(["", "", "-", "+"]) if clen >= 4 else ""
+            ne = rng.randint(1, min(3, clen - 2 - len(es)))
+            text = nz() + d(clen - 2 - len(es) - ne) + "e" + es + nz() + d(ne - 1)
+        else:
+            ne = rng.randint(1, min(2, clen - 5))
+            p = rng.randint(1, clen - 3 - ne)
+            text = nz() + d(p - 1) + "." + d(clen - 2 - ne - p) + "e" + nz() + d(ne - 1)
+    assert len(text) == clen, (kind, clen, text)
+    lit = text
+    if exp and rng.random() < 0.85:
+        gaps = [i for i in range(1, len(text)) if text[i - 1].isdigit() and text[i].isdigit()]
+        if gaps:
+            cut = sorted(rng.sample(gaps, min(len(gaps), rng.choice([1, 1, 2, 3, 5]))), reverse=True)
+            for i in cut:
+                lit = lit[:i] + rng.choice(["_", "_", "__"]) + lit[i:]
+    sign = rng.choice(["", "", "-", "+"])
+    neg = 1 if sign == "-" else 0
+    if kind == "M":
+        return sign + lit + "M", "(bigdec %d %s)" % (neg, C.hexs(text.encode()))
+    return sign + lit + ("N" if kind == "N" else ""), "(bigint %d 10 %s)" % (neg, C.hexs(text.encode()))
+
+
+def interleaved_accessor_scripts(tier, rng, cfg):
+    """Several big numbers (and strings with escapes, whose decoded copies live in the same arena) of ONE document, digit
+    texts of every length 1..40 (every residue modulo the arena's rounding) plus a few beyond the arena's block size;
+    every value is fetched, then every value again in another order (each one after all the others were materialised),
+    then once more after hashing the document.  Every answer must be the literal's digit text with its exact length.
+    Returns [(script line, [expected field or None])]."""
+    exp = cfg in ("exp", "both")
+    pool = [("N", n) for n in range(1, 41)] + [("M", n) for n in range(1, 41)] + [("I", n) for n in range(20, 41)]
+    pool += [(k, n) for k in ("N", "M") for n in (8, 16, 24, 32, 40, 48, 56, 63, 64, 65, 72, 255, 256, 1000, 4088, 4096, 5000)]
+    reps = 1 if tier == "quick" else 12
+    out = []
+    for rep_i in range(reps):
+        items = list(pool)
+        rng.shuffle(items)
+        # members of one residue class side by side as well as mixed ones
+        items += sorted(pool[:80], key=lambda kn: (kn[1] % 8, rng.random()))
+        for at in range(0, len(items), 8):
+            chunk = items[at:at + 8]
+            elems = []  # (text, op, expected)
+            for kind, n in chunk:
+                lit, want = big_item(rng, kind, n, exp)
+                elems.append((lit, "t", want))
+            for j in range(rng.randint(0, 2)):
+                body = "s%d" % rng.randrange(10 ** rng.randint(0, 9))
+                elems.insert(rng.randint(0, len(elems)), ('"%s\\n"' % body, "sg", "%d:%s" % (len(body) + 1, C.hexs((body + "\n").encode()))))
+            doc = ("[" + " ".join(e[0] for e in elems) + "]").encode()
+            idx = list(range(len(elems)))
+            second = list(reversed(idx)) if (at // 8) % 2 == 0 else rng.sample(idx, len(idx))
+            star = [x for i in idx[1:] for x in (idx[0], i)] + [idx[0]]
+            order = ([None] if (at // 8) % 3 == 2 else []) + idx + second + [None] + (star if rng.random() < 0.5 else idx)
+            ops, wants = ["r0=%s" % C.hexs(doc)], ["ok"]
+            for i in order:
+                if i is None:
+                    ops.append("h:0")
+                    wants.append(None)
+                else:
+                    ops.append("%s:0.%d" % (elems[i][1], i))
+                    wants.append(elems[i][2])
+            out.append(("Q " + " ".join(ops), wants, doc))
+    return out
+
+
 def run(tier):
     rep = C.Report(PID, tier, "proof")
     rng = C.rng(PID)
@@ -224,6 +307,54 @@ def run(tier):
                 found = True
                 rep.finding("accessor/unstable", "a big number reads differently on a later accessor call: %s" % sorted(set(dumps))[:2],
                             {"kind": "line", "config": cfg, "line": bscripts[i], "observed": a[:600]})
+
+        # interleaved accessor sequences over many big numbers of one document
+        ia = interleaved_accessor_scripts(tier, C.rng(PID + "/interleaved/" + cfg), cfg)
+        ilines = [l for l, _, _ in ia]
+        ii, im, idf, icr, _ = K.correspond(cfg, ilines)
+        rep.count("accessor-interleaved-scripts/" + cfg, len(ilines))
+        rep.count("accessor-interleaved-fetches/" + cfg, sum(len(w) - 2 for _, w, _ in ia))
+        for idx, rc, err in icr:
+            found = True
+            rep.finding("accessor-crash", "fetching the big numbers of a document crashed or a sanitizer reported", {"kind": "line", "config": cfg, "line": ilines[idx], "stderr": err[:3000]})
+        for i in idf[:3]:
+            rep.broken_obligation("correspondence/accessor-interleaved", "model %r vs code %r" % ((im[i] or "")[:300], (ii[i] or "")[:300]), False)
+        for a, (line, wants, doc) in zip(ii, ia):
+            if a is None:
+                continue
+            got = a.split("\t")
+            bad = [k for k, w in enumerate(wants) if w is not None and (k >= len(got) or got[k] != w)]
+            if bad:
+                found = True
+                k = bad[0]
+                op = line.split(" ")[1 + k]
+                rep.finding("accessor/interleaved", "document %s: operation %d (%s, after %d other accessor calls on the same document) answered %s, the literal denotes %s"
+                            % (doc[:200].decode(), k, op, k - 1, (got[k] if k < len(got) else "nothing")[:200], wants[k][:200]),
+                            {"kind": "line", "config": cfg, "line": line, "document": doc.decode(), "operation_index": k, "operation": op,
+                             "expected": "\t".join(w if w is not None else "*" for w in wants), "observed": a})
+        # the same sequences with ONE direct accessor call per step (`bg:`; the dump behind `t:` audits every accessor of the node
+        # first, so it never shows what the very first edn_bigint_get / edn_bigdec_get call on a value answers); real library only
+        blines = [l.replace(" t:", " bg:") for l in ilines]
+        bo, bcr2 = K.run_impl(cfg, blines)
+        rep.count("accessor-interleaved-direct-scripts/" + cfg, len(blines))
+        for idx, rc, err in bcr2:
+            found = True
+            rep.finding("accessor-crash", "fetching the big numbers of a document crashed or a sanitizer reported", {"kind": "line", "config": cfg, "line": blines[idx], "stderr": err[:3000]})
+        for a, bline, (line, wants, doc) in zip(bo, blines, ia):
+            if a is None:
+                continue
+            got = a.split("\t")
+            bad = [k for k, w in enumerate(wants) if w is not None and (k >= len(got) or got[k] != w)]
+            if bad:
+                found = True
+                k = bad[0]
+                op = bline.split(" ")[1 + k]
+                nth = sum(1 for o in bline.split(" ")[1:1 + k] if o == op) + 1
+                rep.finding("accessor/direct", "document %s: operation %d (%s = accessor call number %d on that value) answered %s, the literal denotes %s"
+                            % (doc[:200].decode(), k, op, nth, (got[k] if k < len(got) else "nothing")[:200], wants[k][:200]),
+                            {"kind": "line", "config": cfg, "line": bline, "document": doc.decode(), "operation_index": k, "operation": op,
+                             "expected": "\t".join(w if w is not None else "*" for w in wants), "observed": a})
+        rep.note_cases(len(ilines) + len(blines), set(C.sha(l)[:16] for l in ilines + blines), sample={"line": ilines[0][:300]})
 
         lits = literal_cases(tier, rng, cfg)
         docs = [d for d, _ in lits]
